@@ -18,14 +18,27 @@
  *  PES level (sink), when no packet carrying PES header octets was lost: one unit per PES with
  *   an optional-header or header-less stream id (none for the padding stream), payload exact
  *   (minus lost packets), DTS/PTS from the header, random flag of the first packet, the chunk
- *   after a gap flagged. */
+ *   after a gap flagged.
+ *
+ * Extension block (decoded after the packets; an exhausted tape gives none): control paths that decide which packet reaches
+ * which output and what ts_decaps reports:
+ *  - flow definitions the pipes must refuse (NULL, not "block.mpegts.") before the valid one;
+ *  - getters (flow definition / output of ts_decaps and of a ts_split output) and unknown commands;
+ *  - up to three more ts_split outputs created and released in mid-stream on the main PID, the other PID, a PID never sent or
+ *    no PID at all: each receives exactly the packets of its PID delivered during its life, unaltered, in order ("carry the
+ *    configured PID"), and the add_pid / del_pid events, replayed as set operations, always equal the set of subscribed PIDs;
+ *  - ts_pid_filter add_pid / del_pid of the other PID in mid-stream;
+ *  - the flow definition of ts_decaps set again in mid-stream: announced downstream, no packet lost, no discontinuity invented;
+ *  - upipe_ts_decaps_get_packets_lost: number of missing packets implied by the continuity counters since the last call
+ *    (checked when every gap is a plain one: not announced by discontinuity_indicator, not compounded with a pending one). */
 #include "C15_fixture.h"
 #include "C15_ref.h"
 
 enum {
     CL_AF0, CL_AF1, CL_AFLONG, CL_PCR, CL_AFEXTRA, CL_AFONLY, CL_DUP, CL_DUPPCR, CL_MISSING,
     CL_MISS_AFONLY, CL_GAPHDR, CL_HDRSPLIT, CL_WRAP, CL_UNBOUNDED, CL_PIDF, CL_SPLIT, CL_NOISE,
-    CL_NOOPT, CL_AU3AF, CL_DI, CL_PADDING, CL_BIGDELAY
+    CL_NOOPT, CL_AU3AF, CL_DI, CL_PADDING, CL_BIGDELAY,
+    CL_Y_BADFD, CL_Y_GETTERS, CL_Y_DYNSUB, CL_Y_DYNSUB_MAINPID, CL_Y_DYNSUB_REMOVED, CL_Y_DYNPIDF, CL_Y_REFLOW, CL_Y_LOST, CL_Y_LOST_NONZERO
 };
 static const char *const class_names[] = {
     "af_length_0", "af_length_1", "af_leaves_payload_le_8", "af_pcr", "af_opcr_splice_private",
@@ -33,7 +46,9 @@ static const char *const class_names[] = {
     "missing_then_af_only_packet", "gap_in_pes_header", "pes_header_split_over_packets",
     "pts_dts_33bit_wrap", "pes_unbounded_length", "front_pid_filter", "front_split", "other_pid_packets",
     "pes_without_optional_header", "pes_ge3_packets_af_in_last", "discontinuity_indicator",
-    "padding_stream", "pts_dts_delay_gt_60s", NULL };
+    "padding_stream", "pts_dts_delay_gt_60s",
+    "y_refused_flow_defs", "y_getters", "y_split_output_added_midstream", "y_extra_output_on_main_pid", "y_split_output_removed_midstream",
+    "y_pid_filter_changed_midstream", "y_decaps_flow_def_set_again", "y_get_packets_lost", "y_packets_lost_nonzero", NULL };
 
 #define P_PIDF 0
 #define P_SPLIT 1
@@ -44,12 +59,15 @@ static const char *const class_names[] = {
 #define P_PESD 6
 #define P_SINK 7
 #define P_NOISE 8
+#define P_X0 9        /* recorders of the extra ts_split outputs: 9, 10, 11 */
+#define NXSUB 3
+#define MAXYOP 8
 
 #define MAXPES 12
 
 struct pkt {
     uint8_t b[R_TS];
-    bool main, deliver, is_dup, has_payload, pusi, rai, di, pcr_f, hdr_octets;
+    bool main, deliver, is_dup, has_payload, pusi, rai, di, pcr_f, hdr_octets, passed;
     uint64_t pcr27;
     unsigned cc, pay_off, pay_len, afl;
     bool has_af;
@@ -65,9 +83,14 @@ struct pes {
     int first_pkt, npkts;
 };
 
+struct yop { int kind, j; size_t at; int pidsel; bool done; };      /* kind 0: toggle extra output j; 1: toggle the other PID in the pid filter */
+struct xsub { struct upipe *sub; bool has_pid; unsigned pid; size_t *want; size_t nwant, capwant; };
+
 struct ctx {
     struct fx fx;
     struct fx_rec tee, sink, noise;
+    struct fx_rec xrec[NXSUB];
+    struct xsub xs[NXSUB];
     struct pkt *pk;
     size_t npk, cappk;
     struct pes pes[MAXPES];
@@ -428,15 +451,137 @@ static int run(const uint8_t *tape_, size_t len, struct vp_report *rep, unsigned
             head = pidf;
         }
     }
+    /* ---------------- extension block (an exhausted tape gives none) ---------------- */
+    uint8_t y0 = ret ? 0 : tp_u8(&t);
+    bool y_badfd = y0 & 1, y_get = y0 & 2, y_dyn = (y0 & 4) && split, y_pidf = (y0 & 8) && pidf && split, y_reflow = y0 & 16, y_lost = y0 & 32;
+    struct yop yop[MAXYOP];
+    int nyop = 0;
+    size_t reflow_at = 0, lost_at = c->npk;
+    unsigned third_pid = (pid + 9) & 0x1fff;
+    if (third_pid == noise_pid) third_pid = (third_pid + 1) & 0x1fff;
+    memset(c->xs, 0, sizeof c->xs);
+    if (y_dyn || y_pidf) {
+        nyop = 1 + tp_u8(&t) % MAXYOP;
+        for (int q = 0; q < nyop; q++) {
+            uint8_t b = tp_u8(&t);
+            yop[q].at = tp_u16(&t) % (c->npk + 1);
+            yop[q].kind = y_dyn && y_pidf ? (b & 1) : y_pidf ? 1 : 0;
+            yop[q].j = (b >> 1) % NXSUB; yop[q].pidsel = (b >> 3) % 4; yop[q].done = false;
+            h = vp_hash_mix(h, yop[q].kind | yop[q].j << 2 | yop[q].pidsel << 4 | (uint64_t)yop[q].at << 8);
+        }
+    }
+    if (y_reflow) reflow_at = tp_u16(&t) % (c->npk + 1);
+    if (y_lost && (tp_u8(&t) & 1)) lost_at = tp_u16(&t) % (c->npk + 1);
+    h = vp_hash_mix(h, y0 | (uint64_t)reflow_at << 8 | (uint64_t)lost_at << 32);
+    if (y0) R(" extension:%s%s%s%s%s%s\n", y_badfd ? " refused-flow-defs" : "", y_get ? " getters" : "", y_dyn ? " split-outputs-in-mid-stream" : "",
+              y_pidf ? " pid-filter-in-mid-stream" : "", y_reflow ? " decaps-flow-def-again" : "", y_lost ? " get_packets_lost" : "");
+    if (y_badfd) cls |= 1u << CL_Y_BADFD;
+    if (y_get) cls |= 1u << CL_Y_GETTERS;
+    if (y_lost) cls |= 1u << CL_Y_LOST;
+    if (!ret && y_badfd) {
+        /* every pipe of the chain documents block.mpegts. as its input */
+        struct upipe *tg[3] = { decaps, split, pidf };
+        static const char *const tn[3] = { "ts_decaps", "ts_split", "ts_pid_filter" };
+        for (int q = 0; q < 3 && !ret; q++) {
+            if (!tg[q]) continue;
+            struct uref *bad = uref_dup(fd);
+            if (!bad) { ret = vp_internal(rep, "uref_dup"); break; }
+            if (ubase_check(upipe_set_flow_def(tg[q], NULL))) FAIL("C15/flowdef/accepted", "%s accepted a NULL flow definition", tn[q]);
+            uref_flow_set_def(bad, "block.mpegtspes.");
+            if (ubase_check(upipe_set_flow_def(tg[q], bad))) FAIL("C15/flowdef/accepted", "%s accepted the flow definition block.mpegtspes. (not TS packets)", tn[q]);
+            uref_flow_set_def(bad, "pic.");
+            if (ubase_check(upipe_set_flow_def(tg[q], bad))) FAIL("C15/flowdef/accepted", "%s accepted the flow definition pic.", tn[q]);
+            uref_free(bad);
+        }
+    }
     if (!ret && !ubase_check(upipe_set_flow_def(head, fd))) ret = vp_internal(rep, "set_flow_def refused on the head pipe");
-    if (fd) uref_free(fd);
+    for (int j = 0; j < NXSUB; j++) fx_rec_init(fx, &c->xrec[j], P_X0 + j, NULL);
+
+    /* the PIDs ts_split declares needed, from its add_pid / del_pid events replayed as set operations, against the model */
+#define CHECK_NEEDED(when) do { \
+        unsigned pv_[3] = { pid, noise_pid, third_pid }; \
+        for (int z_ = 0; z_ < 3 && !ret && split; z_++) { \
+            bool ev_ = false; int model_ = 0; \
+            for (size_t e_ = 0; e_ < fx->nev; e_++) \
+                if (fx->ev[e_].pipe == P_SPLIT && fx->ev[e_].a == pv_[z_]) { if (fx->ev[e_].kind == FXE_ADD_PID) ev_ = true; else if (fx->ev[e_].kind == FXE_DEL_PID) ev_ = false; } \
+            if (subm && pv_[z_] == pid) model_++; \
+            if (subn && pv_[z_] == noise_pid) model_++; \
+            for (int j_ = 0; j_ < NXSUB; j_++) if (c->xs[j_].sub && c->xs[j_].has_pid && c->xs[j_].pid == pv_[z_]) model_++; \
+            if (ev_ != (model_ > 0)) FAIL("C15/split/pid-events", "%s: PID %u has %d outputs, the add_pid/del_pid events of ts_split say it is %sneeded", when, pv_[z_], model_, ev_ ? "" : "not "); \
+        } } while (0)
 
     /* ---------------- feed ---------------- */
     size_t delivered = 0;
-    for (size_t k = 0; k < c->npk && !ret; k++) {
-        if (!c->pk[k].deliver) continue;
+    bool noise_in_pidf = noise_sub;
+    uint64_t lost_got[2] = { 0, 0 };
+    bool lost_mid_called = false;
+    if (!ret) CHECK_NEEDED("after the setup");
+    for (size_t k = 0; k <= c->npk && !ret; k++) {
+        for (int q = 0; q < nyop && !ret; q++) {
+            struct yop *o = &yop[q];
+            if (o->done || o->at != k) continue;
+            o->done = true;
+            if (o->kind == 1) {
+                noise_in_pidf = !noise_in_pidf;
+                R("  before #%zu: ts_pid_filter %s PID %u\n", k, noise_in_pidf ? "add" : "del", noise_pid);
+                int err = noise_in_pidf ? upipe_ts_pidf_add_pid(pidf, noise_pid) : upipe_ts_pidf_del_pid(pidf, noise_pid);
+                if (!ubase_check(err)) FAIL("C15/pidf/control", "ts_pid_filter add/del_pid(%u) failed", noise_pid);
+                cls |= 1u << CL_Y_DYNPIDF;
+            } else {
+                struct xsub *x = &c->xs[o->j];
+                if (!x->sub) {
+                    struct uref *sfd = uref_dup(fd);
+                    if (!sfd) { ret = vp_internal(rep, "uref_dup"); break; }
+                    x->has_pid = o->pidsel != 3;
+                    x->pid = o->pidsel == 0 ? pid : o->pidsel == 1 ? noise_pid : third_pid;
+                    if (x->has_pid) uref_ts_flow_set_pid(sfd, x->pid);
+                    x->sub = upipe_flow_alloc_sub(split, fx_probe(fx, P_SUBN), sfd);
+                    uref_free(sfd);
+                    if (!x->sub || !ubase_check(upipe_set_output(x->sub, &c->xrec[o->j].upipe))) { ret = vp_internal(rep, "extra split output"); break; }
+                    if (x->has_pid) R("  before #%zu: new ts_split output %d on PID %u\n", k, o->j, x->pid); else R("  before #%zu: new ts_split output %d without PID\n", k, o->j);
+                    cls |= 1u << CL_Y_DYNSUB;
+                    if (x->has_pid && x->pid == pid) cls |= 1u << CL_Y_DYNSUB_MAINPID;
+                } else {
+                    R("  before #%zu: ts_split output %d released\n", k, o->j);
+                    upipe_release(x->sub); x->sub = NULL;
+                    cls |= 1u << CL_Y_DYNSUB_REMOVED;
+                }
+                CHECK_NEEDED("after adding / releasing an output in mid-stream");
+            }
+        }
+        if (ret) break;
+        if (y_reflow && k == reflow_at) {
+            R("  before #%zu: set_flow_def on ts_decaps again\n", k);
+            /* (a changed one: an identical flow definition need not be announced again) */
+            struct uref *fd2 = uref_dup(fd);
+            if (!fd2 || !ubase_check(uref_flow_set_id(fd2, 42))) { if (fd2) uref_free(fd2); ret = vp_internal(rep, "uref_dup"); break; }
+            if (!ubase_check(upipe_set_flow_def(decaps, fd2))) FAIL("C15/decaps/flow-def-again", "ts_decaps refused a new flow definition block.mpegts.mpegtspes. in mid-stream");
+            uref_free(fd2);
+            cls |= 1u << CL_Y_REFLOW;
+        }
+        if (y_lost && k == lost_at && k < c->npk) {
+            if (!ubase_check(upipe_ts_decaps_get_packets_lost(decaps, &lost_got[0]))) FAIL("C15/decaps/packets-lost", "get_packets_lost failed");
+            lost_mid_called = true;
+        }
+        if (k == c->npk) break;
+        struct pkt *p = &c->pk[k];
+        if (!p->deliver) continue;
+        p->passed = !pidf || p->main || noise_in_pidf;
+        if (p->passed && split)
+            for (int j = 0; j < NXSUB; j++) {
+                struct xsub *x = &c->xs[j];
+                if (!x->sub || !x->has_pid || x->pid != (p->main ? pid : noise_pid)) continue;
+                if (x->nwant == x->capwant) {
+                    size_t nc = x->capwant ? x->capwant * 2 : 64;
+                    size_t *w = realloc(x->want, nc * sizeof(*w));
+                    if (!w) { ret = vp_internal(rep, "malloc"); break; }
+                    x->want = w; x->capwant = nc;
+                }
+                x->want[x->nwant++] = k;
+            }
+        if (ret) break;
         bool exact;
-        struct uref *uref = fx_uref_exact(fx, c->pk[k].b, R_TS, &exact);
+        struct uref *uref = fx_uref_exact(fx, p->b, R_TS, &exact);
         if (!uref) { ret = vp_internal(rep, "uref allocation"); break; }
         if (!exact) { uref_free(uref); ret = vp_internal(rep, "packet area is not exactly 188 octets"); break; }
         fx->tag = k;
@@ -444,12 +589,52 @@ static int run(const uint8_t *tape_, size_t len, struct vp_report *rep, unsigned
         delivered++;
     }
     fx->tag = -1;
+    if (!ret && y_lost) {
+        uint64_t again = 77;
+        if (!ubase_check(upipe_ts_decaps_get_packets_lost(decaps, &lost_got[1])) || !ubase_check(upipe_ts_decaps_get_packets_lost(decaps, &again)))
+            FAIL("C15/decaps/packets-lost", "get_packets_lost failed");
+        else if (again != 0) FAIL("C15/decaps/packets-lost-reset", "get_packets_lost gives %llu right after a call that must have reset the counter", (unsigned long long)again);
+    }
+    if (!ret && y_get) {
+        struct uref *g = NULL; const char *def = NULL; struct upipe *o = NULL; uint64_t gp = 0;
+        if (c->tee.nchunks && (!ubase_check(upipe_get_flow_def(decaps, &g)) || !g || !ubase_check(uref_flow_get_def(g, &def)) || strcmp(def, "block.mpegtspes.")))
+            FAIL("C15/decaps/get-flow-def", "ts_decaps fed block.mpegts.mpegtspes. reports the output flow definition '%s', expected block.mpegtspes.", def ? def : "(none)");
+        if (!ubase_check(upipe_get_output(decaps, &o)) || o != &c->tee.upipe) FAIL("C15/decaps/get-output", "get_output of ts_decaps does not return the pipe given to set_output");
+        if (subm) {
+            g = NULL; o = NULL;
+            if (!ubase_check(upipe_get_flow_def(subm, &g)) || !g || !ubase_check(uref_ts_flow_get_pid(g, &gp)) || gp != pid)
+                FAIL("C15/split/get-flow-def", "the flow definition of the ts_split output for PID %u says PID %llu", pid, (unsigned long long)gp);
+            if (!ubase_check(upipe_get_output(subm, &o)) || o != decaps) FAIL("C15/split/get-output", "get_output of the ts_split output does not return the pipe given to set_output");
+            if (ubase_check(upipe_control(subm, UPIPE_END_PREROLL))) FAIL("C15/split/unknown-command", "a ts_split output accepted an unknown command");
+        }
+        if (split && ubase_check(upipe_control(split, UPIPE_END_PREROLL))) FAIL("C15/split/unknown-command", "ts_split accepted an unknown command");
+        if (pidf && ubase_check(upipe_control(pidf, UPIPE_END_PREROLL))) FAIL("C15/pidf/unknown-command", "ts_pid_filter accepted an unknown command");
+        if (ubase_check(upipe_control(decaps, UPIPE_END_PREROLL))) FAIL("C15/decaps/unknown-command", "ts_decaps accepted an unknown command");
+        /* a request of an upstream pipe entering the chain at its head is answered (ts_split answers through its probe) */
+        if (!ret) { const char *bad = fx_request_roundtrip(head, fd, true); if (bad) FAIL("C15/chain/request", "%s", bad); }
+    }
+    for (int j = 0; j < NXSUB; j++) if (c->xs[j].sub) { upipe_release(c->xs[j].sub); c->xs[j].sub = NULL; }
+    if (!ret) CHECK_NEEDED("after releasing the outputs added in mid-stream");
     if (pidf) upipe_release(pidf);
-    if (subm) upipe_release(subm);
-    if (subn) upipe_release(subn);
+    if (subm) { upipe_release(subm); subm = NULL; }
+    if (subn) { upipe_release(subn); subn = NULL; }
+    if (!ret) CHECK_NEEDED("after releasing every output");
+#undef CHECK_NEEDED
     if (split) upipe_release(split);
     if (decaps) upipe_release(decaps);
     if (pesd) upipe_release(pesd);
+    if (fd) uref_free(fd);
+    /* each output added in mid-stream received exactly the packets of its PID delivered during its life */
+    for (int j = 0; j < NXSUB && !ret; j++) {
+        struct fx_rec *X = &c->xrec[j];
+        struct xsub *x = &c->xs[j];
+        if (X->nchunks != x->nwant) { FAIL("C15/split/dynamic-output", "ts_split output %d added in mid-stream should have received %zu packets, it received %zu", j, x->nwant, X->nchunks); break; }
+        for (size_t q = 0; q < x->nwant && !ret; q++) {
+            struct fx_chunk *ch = &X->chunks[q];
+            if (ch->tag != (int32_t)x->want[q] || ch->len != R_TS || memcmp(X->bytes + ch->off, c->pk[x->want[q]].b, R_TS))
+                FAIL("C15/split/dynamic-output", "ts_split output %d: buffer %zu is not packet #%zu unaltered (it came with packet #%d, %zu octets)", j, q, x->want[q], ch->tag, ch->len);
+        }
+    }
     if (!ret && (fx->harness_oom || fx->ev_overflow)) ret = vp_internal(rep, "harness recorder overflow");
     if (!ret && c->tee.flowdef_err) ret = vp_internal(rep, "ts_pes_decaps refused the flow definition of ts_decaps (%s)", c->tee.flowdef);
 
@@ -457,6 +642,8 @@ static int run(const uint8_t *tape_, size_t len, struct vp_report *rep, unsigned
     bool gap_in_header = false;
     if (!ret) {
         int last_cc = -1;
+        uint64_t lostm[2] = { 0, 0 };
+        bool lost_exact = true;
         bool pending = false;        /* gap revealed by an adaptation-only packet, not yet flagged */
         bool may_pending = false;    /* discontinuity_indicator on an adaptation-only packet: flagging the next payload is allowed */
         bool any_output = false;     /* the very first output may carry the flag (convention of the pipe) */
@@ -480,8 +667,13 @@ static int run(const uint8_t *tape_, size_t len, struct vp_report *rep, unsigned
                 FAIL("C15/decaps/pcr-event", "packet #%zu has no PCR but ts_decaps threw clock_ref", k);
             if (ret) break;
             bool here = ci < T->nchunks && T->chunks[ci].tag == (int32_t)k;
+            int li = (lost_mid_called && k < lost_at) ? 0 : 1;
             if (!p->has_payload) {
-                if (last_cc != -1 && !p->di && (int)p->cc != last_cc) { pending = true; cls |= 1u << CL_MISS_AFONLY; }
+                if (last_cc != -1 && !p->di && (int)p->cc != last_cc) {
+                    /* (before the first payload the pipe is still in its initial discontinuity: nothing is presumed) */
+                    if (!pending && !may_pending && any_output) lostm[li] += (p->cc - last_cc) & 15; else lost_exact = false;
+                    pending = true; cls |= 1u << CL_MISS_AFONLY;
+                }
                 if (p->di) may_pending = true;
                 last_cc = p->cc;
                 if (here) FAIL("C15/decaps/af-only", "adaptation-only packet #%zu produced output", k);
@@ -494,6 +686,7 @@ static int run(const uint8_t *tape_, size_t len, struct vp_report *rep, unsigned
                 continue;
             }
             bool gap = last_cc != -1 && !p->di && (int)p->cc != ((last_cc + 1) & 15);
+            if (gap) { if (!pending && !may_pending && any_output && (int)p->cc != last_cc) lostm[li] += (p->cc - last_cc - 1) & 15; else lost_exact = false; }
             bool must = pending || gap || p->di;
             bool may = must || may_pending || !any_output;
             if (!here) { FAIL("C15/decaps/lost", "packet #%zu (cc %u, %u payload octets) produced no output", k, p->cc, p->pay_len); break; }
@@ -515,19 +708,38 @@ static int run(const uint8_t *tape_, size_t len, struct vp_report *rep, unsigned
             if (ch->flags & FXC_ERROR) FAIL("C15/decaps/error-flag", "packet #%zu: error flag without transport_error_indicator", k);
             pending = may_pending = false; any_output = true; last_cc = p->cc; prev = p;
         }
+        /* the flow definition is announced downstream once before the first output, and once more before the first output
+         * that follows a new set_flow_def */
+        if (!ret) {
+            size_t before = 0, after = 0;
+            for (size_t q = 0; q < T->nchunks; q++) if (y_reflow && (size_t)T->chunks[q].tag >= reflow_at) after++; else before++;
+            int want = (before ? 1 : 0) + (after ? 1 : 0);
+            if (T->nflowdef != want)
+                FAIL("C15/decaps/flow-def-announced", "the pipe after ts_decaps received %d flow definitions, expected %d (%zu outputs before, %zu after the flow definition was set again)", T->nflowdef, want, before, after);
+            else if (want && strcmp(T->flowdef, "block.mpegtspes."))
+                FAIL("C15/decaps/flow-def-announced", "ts_decaps fed block.mpegts.mpegtspes. announces '%s' downstream, expected block.mpegtspes.", T->flowdef);
+        }
+        /* packets presumed lost: the sum of the counter gaps (plain gaps only, see the head of the file) */
+        if (!ret && y_lost && lost_exact) {
+            if (lost_mid_called && lost_got[0] != lostm[0])
+                FAIL("C15/decaps/packets-lost", "get_packets_lost before packet #%zu gives %llu, the continuity counters of the packets delivered until then imply %llu missing", lost_at, (unsigned long long)lost_got[0], (unsigned long long)lostm[0]);
+            else if (lost_got[1] != lostm[1])
+                FAIL("C15/decaps/packets-lost", "get_packets_lost at the end gives %llu, the continuity counters of the packets delivered since the last call imply %llu missing", (unsigned long long)lost_got[1], (unsigned long long)lostm[1]);
+            if (lostm[0] + lostm[1]) cls |= 1u << CL_Y_LOST_NONZERO;
+        }
         if (!ret && ci != T->nchunks)
             FAIL("C15/decaps/extra", "ts_decaps output %zu chunks, %zu expected (chunk %zu has tag %d)", T->nchunks, ci, ci, T->chunks[ci].tag);
     }
     /* other PID: routed to its own output untouched, or filtered */
     if (!ret && front != 0) {
         size_t want = 0;
-        for (size_t k = 0; k < c->npk; k++) if (!c->pk[k].main && c->pk[k].deliver) want++;
+        for (size_t k = 0; k < c->npk; k++) if (!c->pk[k].main && c->pk[k].deliver && c->pk[k].passed) want++;
         if (noise_sub) {
             if (c->noise.nchunks != want) FAIL("C15/split/other-pid", "%zu packets of PID %u sent, its ts_split output received %zu", want, noise_pid, c->noise.nchunks);
             else {
                 size_t q = 0;
                 for (size_t k = 0; k < c->npk && !ret; k++)
-                    if (!c->pk[k].main && c->pk[k].deliver) {
+                    if (!c->pk[k].main && c->pk[k].deliver && c->pk[k].passed) {
                         struct fx_chunk *ch = &c->noise.chunks[q++];
                         if (ch->len != R_TS || memcmp(c->noise.bytes + ch->off, c->pk[k].b, R_TS))
                             FAIL("C15/split/other-pid", "packet #%zu of PID %u altered or misrouted by ts_split", k, noise_pid);
@@ -614,6 +826,7 @@ static int run(const uint8_t *tape_, size_t len, struct vp_report *rep, unsigned
 
     /* ---------------- teardown ---------------- */
     fx_rec_clean(&c->tee); fx_rec_clean(&c->sink); fx_rec_clean(&c->noise);
+    for (int j = 0; j < NXSUB; j++) { fx_rec_clean(&c->xrec[j]); free(c->xs[j].want); c->xs[j].want = NULL; }
     for (int i = 0; i < c->npes; i++) { free(c->pes[i].bytes); c->pes[i].bytes = NULL; }
     const char *leak = fx_clean(fx);
     if (leak && !ret) ret = vp_fail(rep, "C15/leak/decaps", "after releasing every pipe: %s", leak);
